@@ -5,13 +5,14 @@
   answers — stanzas answering "incorrect identity" are skipped, the FIRST other answer
   (a key or an error) decides, and when none is left the answer is exactly
   `ErrIncorrectIdentity` (the value `Decrypt` collects into NoIdentityMatchError).
-  With it, and with `(*ScryptIdentity).Unwrap` of Tie/C10, `Props.C04.no_match_structure`
+  With it, and with `(*ScryptIdentity).Unwrap` (tied in Tie/C10, kept out of this file so that
+  a rewrite of scrypt.go leaves this property's obligations alone), `Props.C04.no_match_structure`
   and `scrypt_no_stanza_incorrect` speak about the source text.
 
   Breaks when: multiUnwrap stops at the first non-matching stanza, swallows an error,
   or returns another value than the sentinel when nothing matched.
 -/
-import Proofs.GoTieScrypt
+import Proofs.GoTieUnwrap
 namespace AgeModel
 namespace Tie.C04
 
@@ -20,13 +21,6 @@ theorem multiUnwrap_tie (u : Extracted.age_Stanza → Go.M (Bytes × Option Go.E
     ∃ r, Extracted.age_multiUnwrap GoTie.errorsIsEq u (ss.map GoTie.toGoStanza) = .ok r ∧
       GoTie.resClass r = multiUnwrap (fun s => GoTie.stanzaClass u (GoTie.toGoStanza s)) ss :=
   GoTie.multiUnwrap_tie u hU ss
-
-/-- the passphrase identity on a header without a passphrase stanza of its own: "incorrect identity"
-    (so that Decrypt moves on / reports the dedicated no-match error) -/
-theorem scrypt_Unwrap_tie (P : Prims) (E : GoTie.ScryptEnv P) (pw : Bytes) (maxWF : Nat) (ss : List Format.Stanza) :
-    ∃ r, Extracted.age_ScryptIdentity_Unwrap GoTie.errorsIsEq E.D E.K E.A ⟨pw, Int.ofNat maxWF⟩ (ss.map GoTie.toGoStanza) = .ok r ∧
-      GoTie.resClass r = (Identity.unwrapLog P (.scrypt pw maxWF) ss).1 :=
-  GoTie.scrypt_Unwrap_tie P E pw maxWF ss
 
 end Tie.C04
 end AgeModel
